@@ -845,10 +845,10 @@ def effect_probe(name, with_callback, ext, tmp):
 def mqtt_retain_probe(name, retain, pin="px/in", pout="px/out"):
     """in_prefix / out_prefix / retain honoured by effect: every command published carries the configured
     retain flag and the configured out prefix, whatever its payload.  Returns a failure text or None."""
-    pubs = []
+    pubs, subs = [], []
     vals = dict(values_a("/nonexistent"), protocol_version="2.2", out_prefix=pout, in_prefix=pin,
                 pub_callback=lambda topic, payload, qos, ret: pubs.append((topic, payload, qos, ret)),
-                sub_callback=lambda topic, cb, qos: None)
+                sub_callback=lambda topic, cb, qos: subs.append((topic, qos)))
     keys = ["pub_callback", "sub_callback", "protocol_version", "out_prefix", "in_prefix"]
     if retain is not None:
         vals["retain"] = retain
@@ -871,6 +871,19 @@ def mqtt_retain_probe(name, retain, pin="px/in", pout="px/out"):
                     f"not the configured {want!r}")
         if not topic.startswith(pout + "/") or topic.count("/") != pout.count("/") + 5:
             return f"{name}(out_prefix={pout!r}) published {c.strip()!r} to {topic!r}"
+    # the subscriptions the gateway asks for at start-up and for a presented child: under the configured
+    # in-prefix, five levels, with the QoS a broker accepts for wildcard subscriptions of this kind (0)
+    try:
+        gw.init_topics()
+        gw.logic("9;255;0;0;17;2.2\n")
+        gw.logic("9;4;0;0;6;t\n")
+    except Exception as exc:  # noqa: BLE001
+        return f"{name}(in_prefix={pin!r}): subscribing raised {type(exc).__name__}: {exc}"
+    if not subs:
+        return f"{name}(in_prefix={pin!r}): no subscription was requested"
+    for topic, qos in subs:
+        if not topic.startswith(pin + "/") or topic.count("/") != pin.count("/") + 5 or qos != 0:
+            return f"{name}(in_prefix={pin!r}): subscription to {topic!r} requested with QoS {qos!r}"
     # in_prefix by effect: exactly the topics made of the configured prefix and the five message levels are
     # taken in; what lies next to it, above it or deeper below it belongs to somebody else
     jobs = []
@@ -1018,6 +1031,8 @@ def connect_wait_probe(name, timeout, rt):
         return f"{what}: the attempts to connect are {gaps} s apart"
     if serial_class and any(t != timeout for _, t in attempts[:4]):
         return f"{what}: the port is opened with timeout {attempts[0][1]!r}"
+    if not serial_class and any(t != rt for _, t in attempts[:4]):
+        return f"{what}: an attempt to connect is given {attempts[0][1]!r} s, not the reconnect timeout"
     return None
 
 
